@@ -119,6 +119,20 @@ def run(ctx):
                         L = G.header(w, rd, "none") + [G.plant(G.key_path(("sharded", nsh), "r0", key, which), "STORED", mtime=G.T0 + 9, atime=G.T0),
                                                        G.NOFIRE, G.op(0, look, key), "snap"]
                         pcases.append(({"shards": nsh, "hashes": hs, "fillers": 0, "lookup": look, "read_side": True, "which": which}, L))
+    # the layout does not depend on the capacity: a writer declared with n >= 2 shards and a capacity
+    # smaller than n still stores the entry in one of the key's two shard directories, where any other
+    # handle declared with n shards looks for it
+    for nsh in (2, 3, 4, 16):
+        for total in sorted({0, 1, nsh - 1}):
+            for hs in ((7, 9), (1 << 63, 3), (12345678901234567, 98765432109876543)):
+                key = ("kk", hs[0], hs[1])
+                w = ("sharded", nsh, total)
+                for wr in ("set", "put"):
+                    L = G.header(w, (), "none", handles=2) + [G.NOFIRE, G.op(0, wr, key, "V", 1), "snap", G.NOFIRE, G.op(1, "get", key), "snap"]
+                    # through the builders' own choice of layout (CacheBuilder::writer)
+                    L = [("writer auto %d %d" % (nsh, total)) if l.startswith("writer ") else l for l in L]
+                    pcases.append(({"shards": nsh, "hashes": hs, "fillers": 0, "lookup": wr, "small_capacity": total,
+                                    "expect": [G.key_path(w, "w", key, 0), G.key_path(w, "w", key, 1)]}, L))
     pres = S.run_many(pcases)
     pagree = 0
     for desc, lines, impl, model, diffs in pres:
@@ -131,6 +145,14 @@ def run(ctx):
         nontriv += 1
         stn = desc["fillers"] + 1
         r = impl.results.get(stn)
+        if "small_capacity" in desc:
+            if r and r[1].startswith("OkUnit") and impl.snaps:
+                where = [l.split(" ")[0] for l in impl.snaps[0] if l.split(" ")[1] == "f" and l.split(" ")[0].rsplit("/", 1)[1] == "kk"]
+                if not where or any(p not in desc["expect"] for p in where):
+                    violations.append({"what": "a writer declared with %d shards and capacity %d stored the entry at %s, not in one of the key's two shard directories %s" % (desc["shards"], desc["small_capacity"], where, desc["expect"]),
+                                       "classification": {"kind": "layout-depends-on-capacity", "api": desc["lookup"], "shards": desc["shards"]},
+                                       "replay": {"kind": "input", "scenario": lines, "case": str(desc)}})
+            continue
         if desc.get("read_side"):
             if r and not (r[1].startswith("OkSome content=STORED") or r[1].startswith("OkBool 1")):
                 violations.append({"what": "a read-only sharded level declared with %d shards does not find the entry stored in its %s shard directory (two-shard layout): %s" % (desc["shards"], "secondary" if desc["which"] else "primary", r[1][:40]),
